@@ -511,16 +511,18 @@ impl super::MainState {
                 )
                 .await?;
             }
-            if end {
-                self.feed_msg(
-                    &mut conn_state.stream,
-                    RplEndOfNames366 {
-                        client,
-                        channel: channel_name,
-                    },
-                )
-                .await?;
-            }
+        }
+        // end of names is sent also for secret channel if user is not in channel:
+        // reply is the same as for channel that doesn't exist.
+        if end {
+            self.feed_msg(
+                &mut conn_state.stream,
+                RplEndOfNames366 {
+                    client,
+                    channel: channel_name,
+                },
+            )
+            .await?;
         }
         Ok(())
     }
